@@ -106,10 +106,26 @@ def compare(chk, src, s, iv, mv, expected, fx_status, counters, viols):
     if impl_has_errs != bool(m_errs):
         bad("broken-obligation", "corr:parse-errors",
             dict(clause="implementation and model disagree on whether parse errors were reported"), True)
-    elif [tuple(e) for e in iv["parse_errors"]] != m_errs:
-        counters["soft:error-details-differ"] = counters.get("soft:error-details-differ", 0) + 1
-        if counters["soft:error-details-differ"] <= 3:
-            vlib.log(f"note: error kinds/spans differ on {s!r}: impl {iv['parse_errors']} model {m_errs}")
+    elif iv["spanless"]:
+        # NOT COMPARABLE (1): an error variant without a span (ParseSingleError::Unknown and variants the
+        # harness does not know) has no (kind, span) pair; counted, and oracle:error-nonempty still applies
+        counters["uncompared:spanless-error"] = counters.get("uncompared:spanless-error", 0) + 1
+    elif sorted(tuple(e) for e in iv["parse_errors"]) != sorted(m_errs):
+        # HARD: wherever both report parse errors, the same multiset of (kind, offset, length)
+        bad("broken-obligation", "corr:parse-error-details",
+            dict(clause="Filterset::parse and the model report different multisets of (error kind, span)",
+                 impl_errors=sorted(tuple(e) for e in iv["parse_errors"]), model_errors=sorted(m_errs)), True)
+    else:
+        counters["compared:error-details"] = counters.get("compared:error-details", 0) + len(m_errs)
+    if not iv["valid"]:
+        # ParsedExpr::parse (the public entry point without a compile step) reports its own list
+        pe3 = sorted(e for e in iv["pe_errors"] if len(e) == 3)
+        if len(pe3) != len(iv["pe_errors"]):
+            counters["uncompared:spanless-error"] = counters.get("uncompared:spanless-error", 0) + 1
+        elif m_errs and pe3 != sorted(m_errs):
+            bad("broken-obligation", "corr:parse-error-details",
+                dict(clause="ParsedExpr::parse and the model report different multisets of (error kind, span)",
+                     impl_errors=pe3, model_errors=sorted(m_errs)), True)
     if expected is not None and iv["valid"] and not iv["parse_errors"]:
         # the generator knows which tree the documented grammar assigns to its own text
         if F.ast_to_json(expected) != F.ast_to_json(iv["ast"]):
@@ -129,27 +145,96 @@ def compare(chk, src, s, iv, mv, expected, fx_status, counters, viols):
     return orc_ok
 
 
+# ---- F6d: where the real parser dies on nesting.  Measured 2026-10-01 with a probe linking
+# nextest-filtering alone (docs/notes/C20.md has the table): smallest depth that kills the process,
+# in nesting LEVELS (one per "(", "!" or "not "; the unit "!(" is two levels):
+#   build opt-level 1 (this harness): 8 MiB main thread 4186 ("("), 8720 ("!"), 5656 ("!(");
+#                                     2 MiB thread      1043,       2173,       1410
+#   release:                          8 MiB 5627 / 12761 / 7812;    2 MiB 1403 / 3181 / 1948
+#   opt-level 0:                      8 MiB 1018 / 2033 / 1358;     2 MiB  253 /  504 /  338
+# i.e. >= 521 levels per MiB of stack at opt-level >= 1.  The known-finding class starts at 375
+# levels per MiB (3000 on the 8 MiB main thread nextest parses on, 750 on a 2 MiB thread): a crash
+# below that is a VIOLATION, not F6d.
+MIB = 1024 * 1024
+LEVELS = {"(": 1, "!": 1, "not ": 1, "!(": 2}
+UNIT_NAMES = {"(": "paren", "!": "bang", "not ": "not", "!(": "bang_paren"}
+F6D_LEVELS_PER_MIB = 375
+MAIN_STACK, THREAD_STACK = 8 * MIB, 2 * MIB
+
+
+def f6d_boundary(stack_bytes):
+    """nesting levels from which a crash is the known finding F6d (opt-level >= 1 builds)"""
+    return F6D_LEVELS_PER_MIB * stack_bytes // MIB
+
+
+def _main_stack_limit():
+    """the stack the child's main thread gets: 8 MiB if the hard limit allows, else the soft limit"""
+    import resource
+    soft, hard = resource.getrlimit(resource.RLIMIT_STACK)
+    if hard == resource.RLIM_INFINITY or hard >= MAIN_STACK:
+        return MAIN_STACK, True
+    return (soft if soft != resource.RLIM_INFINITY else hard), False
+
+
+def deep_case(binary, unit, close, depth, stack, main_limit):
+    """one nested expression in a child process; stack = 0: on the child's main thread"""
+    import resource
+    case = dict(op="deep", unit=unit, close=close, depth=depth, leaf="all()")
+    if stack:
+        case["stack"] = stack
+
+    def limit():
+        if main_limit[1]:
+            _, hard = resource.getrlimit(resource.RLIMIT_STACK)
+            resource.setrlimit(resource.RLIMIT_STACK, (main_limit[0], hard))
+    try:
+        p = subprocess.run([binary, "filterset"], input=json.dumps(case) + "\n", capture_output=True,
+                           text=True, timeout=300, env=vlib.ENV, preexec_fn=limit)
+        rc, out = p.returncode, p.stdout.strip()
+    except subprocess.TimeoutExpired:
+        rc, out = "timeout", ""
+    obs = json.loads(out.splitlines()[-1]) if rc == 0 and out else None
+    return rc, obs
+
+
 def deep_nesting(chk, binary, tier):
-    """nesting depth 10 .. 10^5 of '(', '!' and 'not ' in a child process each"""
-    res = []
-    depths = [10, 100, 1000, 10000, 100000] if tier == "thorough" else [10, 100, 1000, 10000]
-    for unit, close in (("(", ")"), ("!", ""), ("not ", ""), ("!(", ")")):
-        for d in depths:
-            case = dict(op="deep", unit=unit, close=close, depth=d, leaf="all()")
-            try:
-                p = subprocess.run([binary, "filterset"], input=json.dumps(case) + "\n", capture_output=True,
-                                   text=True, timeout=300, env=vlib.ENV)
-                rc, out = p.returncode, p.stdout.strip()
-            except subprocess.TimeoutExpired:
-                rc, out = "timeout", ""
-            obs = None
-            if rc == 0 and out:
-                obs = json.loads(out.splitlines()[-1])
-            res.append(dict(unit=unit, depth=d, rc=rc, obs=obs))
-            chk.count("deep_nesting_cases")
-            if rc != 0:
-                break   # deeper ones die the same way
-    return res
+    """Each of '(', '!', 'not ', '!(' nested on the main thread (8 MiB, where nextest parses) and on a
+    2 MiB thread, each case in its own child process: (a) depths 10, 100 and 90 % of the class boundary
+    must parse, print and re-parse; (b) the smallest depth that kills the process is located by
+    bisection between the boundary and 12 x the boundary and recorded."""
+    res, thresholds = [], []
+    main_limit = _main_stack_limit()
+    for stack, stack_bytes in ((0, main_limit[0]), (THREAD_STACK, THREAD_STACK)):
+        boundary = f6d_boundary(stack_bytes)
+        for unit, close in (("(", ")"), ("!", ""), ("not ", ""), ("!(", ")")):
+            lv = LEVELS[unit]
+
+            def probe(d):
+                rc, obs = deep_case(binary, unit, close, d, stack, main_limit)
+                chk.count("deep_nesting_cases")
+                res.append(dict(unit=unit, depth=d, levels=d * lv, stack=stack_bytes, boundary=boundary, rc=rc, obs=obs))
+                return rc == 0
+            below = sorted({10, 100, max(1, (boundary * 9 // 10) // lv)})
+            for d in below:
+                probe(d)
+            lo, hi = max(1, (boundary - 1) // lv), 12 * boundary // lv
+            if tier == "thorough":
+                hi = max(hi, 100000)
+            first_bad = None
+            if not probe(hi):
+                if probe(lo):
+                    while hi - lo > 1:
+                        mid = (lo + hi) // 2
+                        if probe(mid):
+                            lo = mid
+                        else:
+                            hi = mid
+                    first_bad = hi
+                else:
+                    first_bad = lo
+            thresholds.append(dict(unit=unit, stack=stack_bytes, boundary_levels=boundary,
+                                   first_failing_levels=None if first_bad is None else first_bad * lv))
+    return res, thresholds
 
 
 def run(tier, seed):
@@ -238,38 +323,56 @@ def run(tier, seed):
         chk.known_finding(kf[fid]["what"])
 
     # ---- deep nesting in child processes
-    deep = deep_nesting(chk, binary, tier)
+    deep, thresholds = deep_nesting(chk, binary, tier)
     crash = [d for d in deep if d["rc"] != 0]
     for d in deep:
         if d["rc"] == 0 and d["obs"] and not (d["obs"].get("ok") and d["obs"].get("reparse_ok") and d["obs"].get("same_print")):
             viols.append(("counterexample", "oracle:deep-roundtrip", dict(input=d, clause="deeply nested expression "
                           "did not parse / print / re-parse"), False))
+    f6d_seen = False
     for d in crash:
-        if status["F6d"] == "finding" and d["depth"] >= 200 and "F6d" in kf:
-            chk.known_finding(kf["F6d"]["what"])
+        if status["F6d"] == "finding" and d["levels"] >= d["boundary"] and "F6d" in kf:
+            f6d_seen = True
             chk.count("deep_nesting_crashes")
         else:
-            viols.append(("counterexample", "oracle:total",
-                          dict(input=dict(unit=d["unit"], depth=d["depth"]), impl=str(d["rc"]),
-                               clause="the parser process died on a nested expression"), False))
-    chk.sample(dict(deep_nesting=[dict(unit=d["unit"], depth=d["depth"], rc=d["rc"]) for d in deep]))
+            counters["oracle:total"] = counters.get("oracle:total", 0) + 1
+            if counters["oracle:total"] <= 3:
+                viols.append(("counterexample", "oracle:total",
+                              dict(input=dict(unit=d["unit"], depth=d["depth"], nesting_levels=d["levels"],
+                                              stack_bytes=d["stack"], known_class_starts_at_levels=d["boundary"]),
+                                   impl=str(d["rc"]),
+                                   clause="the parser process died on a nested expression below the depth at which "
+                                          "the known stack overflow F6d starts"), False))
+    if f6d_seen:
+        chk.known_finding(kf["F6d"]["what"])
+    for t in thresholds:
+        if t["first_failing_levels"] is not None:
+            chk.count("deep_threshold_levels_per_mib_%s_%dMiB" % (UNIT_NAMES[t["unit"]], t["stack"] // MIB),
+                      t["first_failing_levels"] * MIB // t["stack"])
+    chk.sample(dict(deep_nesting_thresholds=thresholds))
 
     for kind, name, detail, no_input in viols:
         chk.violation(kind, name, detail, no_input=no_input)
     for k, v in counters.items():
-        chk.count("mismatch_" + k, v)
+        chk.count(k.replace(":", "_") if k.startswith(("compared:", "uncompared:")) else "mismatch_" + k, v)
     for it, iv in list(zip(items, views1))[70:74]:
         chk.sample(dict(source=it[0], input=it[1], parsed=iv["ast"], errors=iv["parse_errors"]))
     chk.assumptions = [
         "glob and regex validity (and regex_syntax error spans) are oracles: per-case tables from the real engines",
-        "source spans inside the AST are not compared; error kinds/spans are compared softly (reported, not a violation)",
+        "source spans inside the AST are not compared; error kinds and spans ARE (corr:parse-error-details: same multiset "
+        "of (kind, offset, length) for Filterset::parse and for ParsedExpr::parse). Not comparable: error variants "
+        "without a span (counted as uncompared:spanless-error); error messages / the engine text inside InvalidGlob / "
+        "InvalidRegex; the span of an InvalidRegex is regex_syntax's own span fed to the model as an oracle answer, so "
+        "that comparison is not independent; compile errors (NoPackageMatch, BannedPredicate, ...) are C05's, only "
+        "their spans are checked to lie within the input",
+        "F6d class boundary: %d nesting levels per MiB of stack (opt-level >= 1 builds); a crash below it is a violation" % F6D_LEVELS_PER_MIB,
         "termination of the real parser on deep nesting is observed in child processes, not proved",
         "strings are sequences of Unicode scalar values; byte offsets are computed from UTF-8 lengths",
     ]
     return chk.finish(
         gate, "make -C coq Properties/C20.vo && coqc gen/assump_C20.v (Print Assumptions)",
         ["Coq 8.16.1 kernel + vm_compute",
-         "hand-written model Model/FiltersetParse.v tied by corr:parse-valid, corr:parse-ast, corr:parse-errors, corr:print",
+         "hand-written model Model/FiltersetParse.v tied by corr:parse-valid, corr:parse-ast, corr:parse-errors, corr:parse-error-details, corr:print",
          "Python generators / Debug-output reader in props/filterset_common.py", "harness/src/filterset.rs"],
         dict(evaluations=chk.counts.get("parse_cases", 0) + chk.counts.get("deep_nesting_cases", 0),
              distinct_nontrivial=len(distinct),
@@ -287,6 +390,17 @@ def replay(path, seed):
     print(json.dumps(d, indent=1)[:4000])
     binary, err = vlib.build_harness()
     s = d.get("input")
+    if isinstance(s, dict) and "unit" in s and "depth" in s:
+        # a deep-nesting counterexample: re-run that nesting in a child process
+        unit = s["unit"]
+        close = ")" if unit.endswith("(") else ""
+        stack = 0 if s.get("stack_bytes", MAIN_STACK) >= MAIN_STACK else s["stack_bytes"]
+        rc, obs = deep_case(binary, unit, close, s["depth"], stack, _main_stack_limit())
+        print(f"deep nesting unit={unit!r} depth={s['depth']} stack={s.get('stack_bytes')}: rc={rc} obs={obs}")
+        okay = rc == 0 and obs and obs.get("ok") and obs.get("reparse_ok") and obs.get("same_print")
+        if not okay:
+            print("FAILS: oracle:total / oracle:deep-roundtrip")
+        return 0 if okay else 1
     if not isinstance(s, str):
         return 0
     status = F.finding_status()
